@@ -667,3 +667,17 @@ Definition copy_vs_plumbing : bool :=
   passes copy_vs_inquired 3 copy_vs_setfields_out 1 && passes copy_vs_inquired 3 copy_vs_setfields_in 1 &&
   passes copy_vs_inquired 5 copy_vs_setname 1 &&
   match copy_vs_reassigned with [] => true | _ => false end.
+
+(** copy_sds, per-dimension loop: the dimension keeps its name; its scale is written with the number type SDdiminfo
+    reported, from the buffer SDgetdimscale filled, with as many values as the SDS has along that dimension
+    (the extent from SDgetinfo -- for an unlimited dimension SDdiminfo reports 0, the extent is the record count) *)
+Definition copy_sds_dim_plumbing : bool :=
+  passes copy_sds_diminfo 1 copy_sds_setdimname 1 &&
+  passes copy_sds_diminfo 3 copy_sds_setdimscale 2 &&
+  passes copy_sds_getdimscale 1 copy_sds_setdimscale 3 &&
+  passes copy_sds_diminfo 0 copy_sds_getdimscale 0 &&
+  passes copy_sds_setdimname 0 copy_sds_setdimscale 0 &&
+  match nth_error copy_sds_setdimscale 1, nth_error copy_sds_inquired 3 with
+  | Some c, Some d => str_eqb c (d ++ [91; 105; 93])     (* dimsizes[i] *)
+  | _, _ => false
+  end.
